@@ -358,6 +358,10 @@ func (b *Backend) CheckWorld(m *Model, sigp string, where string, deep bool) {
 			b.compareTyped(sigp, s, e, where)
 		}
 	}
+	// the two reserved handles were never issued by a creation: they are never alive
+	if b.W.Alive(ecs.Entity{}) || b.W.Alive(wildcardHandle) {
+		fail(sigp+"|alive-reserved", "%s %s: Alive(zero entity)=%v Alive(%v)=%v", b.Name, where, b.W.Alive(ecs.Entity{}), wildcardHandle, b.W.Alive(wildcardHandle))
+	}
 	if locked := b.W.IsLocked(); locked != (m.OpenQ > 0) {
 		fail(sigp+"|locked", "%s %s: IsLocked=%v, model has %d open queries", b.Name, where, locked, m.OpenQ)
 	}
@@ -672,3 +676,5 @@ func (b *Backend) regMask() uint16 {
 	}
 	return m
 }
+
+var wildcardHandle = mkHandle(1, 0)
